@@ -273,22 +273,47 @@ example := C17_stack_decision_sound false
   (by intro c hc; simp at hc; rcases hc with rfl | rfl <;> simp [sortedKeys, SegCol.liveKeys, Merge.liveDocs, dirLe, keyLe])
   (by decide)
 
-/-- The same soundness statement about the decision the DRIVER evaluates (`stackDecisionG`),
-which is `stackDecision` only while the guards extracted from `merger.rs` hold
-(`segment_has_live_nulls`: non-Optional ⇒ false, no deletes ⇒ true, else a scan of the ALIVE docs
-for `first() == None` and nothing else; `is_disjunct_and_sorted_on_sort_property`: window test
-`max ≤ min` / `min ≥ max`, then no reader with live nulls). An edit of either function flips a
-guard: this proof stops compiling and the driver answers `?` instead of a decision. -/
+/-- The REPAIRED scan (pending fix: only `Full` columns are exempt) is exact for every
+cardinality, multi-valued columns included — no side condition on the cardinality is left. -/
+theorem C17_live_nulls_scan_exact_repaired (c : SegCol) (hlen : c.keys.length = c.alive.length)
+    (hcard : CardOk c) :
+    hasLiveNullsFixed c.card c.keys c.alive = true ↔ ∃ k ∈ c.liveKeys, k = none :=
+  hasLiveNullsFixed_iff c hlen hcard
+
+example : hasLiveNullsFixed .multivalued [none, some 5] [true, true] = true
+    ∧ hasLiveNullsFixed .multivalued [none, some 5] [false, true] = false := by decide
+
+/-- Soundness of the stack decision for the scan the CURRENT source performs
+(`stackDecisionG`, selected by the guards extracted from `merger.rs`). The cardinality
+hypothesis is now conditional on the extracted shape: a multi-valued sort column is allowed as
+soon as the source scans it (`Gen.LIVE_NULLS_SCANS_MULTIVALUED = 1`, the pending fix); with the
+pinned shape the theorem needs — and says so — that no reader's sort column is multi-valued
+(`C17_multivalued_nulls_counterexample` is the witness that this cannot be dropped there). The
+proof does not evaluate the guard: it stays valid when the fix is applied. An edit of either
+function to an unknown shape makes the driver answer `?` and `stackDecisionG = none`. -/
 theorem C17_stack_decision_sound_extracted (desc : Bool) (cs : List SegCol)
     (hlen : ∀ c ∈ cs, c.keys.length = c.alive.length)
-    (hcard : ∀ c ∈ cs, CardOk c) (hnm : ∀ c ∈ cs, c.card ≠ .multivalued)
+    (hcard : ∀ c ∈ cs, CardOk c)
+    (hnm : ∀ c ∈ cs, c.card = .multivalued → Gen.LIVE_NULLS_SCANS_MULTIVALUED = 1)
     (hstats : ∀ c ∈ cs, StatsOk c) (hne : ∀ c ∈ cs, c.liveKeys ≠ [])
     (hsorted : ∀ c ∈ cs, sortedKeys desc c.liveKeys)
     (hdec : stackDecisionG desc cs = some true) :
     sortedKeys desc ((cs.map SegCol.liveKeys).flatten) := by
-  have hg : Gen.LIVE_NULLS_SCAN_SHAPE = 1 ∧ Gen.STACK_DECISION_SHAPE = 1 := by decide
-  simp only [stackDecisionG, hg, and_self, if_true, Option.some.injEq] at hdec
-  exact C17_stack_decision_sound desc cs hlen hcard hnm hstats hne hsorted hdec
+  unfold stackDecisionG at hdec
+  split at hdec
+  · simp only [Option.some.injEq] at hdec
+    apply stack_sound_of_scan hasLiveNullsG desc cs ?_ hstats hne hsorted hdec
+    intro c hc hfalse k hk hknone
+    unfold hasLiveNullsG at hfalse
+    by_cases hg : Gen.LIVE_NULLS_SCANS_MULTIVALUED = 1
+    · simp only [hg, if_true] at hfalse
+      have := (hasLiveNullsFixed_iff c (hlen c hc) (hcard c hc)).2 ⟨k, hk, hknone⟩
+      rw [hfalse] at this; cases this
+    · simp only [hg, if_false] at hfalse
+      have hnmc : c.card ≠ .multivalued := fun h => hg (hnm c hc h)
+      have := (hasLiveNulls_iff c (hlen c hc) (hcard c hc) hnmc).2 ⟨k, hk, hknone⟩
+      rw [hfalse] at this; cases this
+  · cases hdec
 
 example : stackDecisionG false [⟨.full, [some 1, some 5], [true, true], (1, 5)⟩,
     ⟨.optional, [none, some 5, some 9], [false, true, true], (5, 9)⟩] = some true := by decide
